@@ -45,8 +45,13 @@ def gen_calls(rng, n):
             kw["anneal_duration"] = rng.choice([1, 2, 7, 30])
             if rng.random() < 0.4:
                 kw["temperature_range"] = rng.choice([[3.0, 0.5], [1.0, 1.0], [2.0, 0.01]])
+        if kind == "dict" and labs and (isinstance(kw["schedule"], list) or "temperature_range" in kw) and rng.random() < 0.3:
+            # a raw dict may mention a label only with a zero coefficient: it is no variable of the model
+            zl = "L%d" % len(labels)
+            labels[zl] = repr("zero-only")
+            terms.append([[zl], 0])
         if rng.random() < 0.4:
-            used = sorted({x for k, _ in terms for x in k}, key=str)
+            used = sorted({x for k, c_ in terms for x in k if c_}, key=str)
             if matrix and used:
                 used = list(range(max(used) + 1))
             spinfn = fn in ("anneal_quso", "anneal_puso")
